@@ -15,8 +15,9 @@ TheSchema == [
              S |-> [kind |-> "scalar",    attrs |-> [z |-> {}]]],
   directives |-> [d |-> {"x"}, e |-> {}]]
 TypeNames == {"Q", "I", "N", "E", "U", "S", "Z"}
-AttrNames == {"f", "g", "V", "z"}
-ArgNames  == {"x", "y", "z"}
+\* the introspection meta-fields are not elements of the schema: a coordinate naming one resolves to nothing
+AttrNames == {"f", "g", "V", "z", "__typename", "__schema", "__type"}
+ArgNames  == {"x", "y", "z", "name"}
 DirNames  == {"d", "e", "z"}
 
 VARIABLES str, look
